@@ -41,14 +41,14 @@ func buildStrategy(ctx context.Context, c *Case, w *world, clock *fakes.VClock) 
 	switch c.Provider {
 	case "first":
 		return first.New(ctx,
-			first.WithLogLevel(zerolog.Disabled),
+			first.WithLogLevel(levelOf(c.LogLevel)),
 			first.WithClientMonitor(nullmetrics.New()),
 			first.WithTimeout(strategyTimeout),
 			first.WithAttestationDataProviders(providers),
 		)
 	case "best":
 		return best.New(ctx,
-			best.WithLogLevel(zerolog.Disabled),
+			best.WithLogLevel(levelOf(c.LogLevel)),
 			best.WithClientMonitor(nullmetrics.New()),
 			best.WithProcessConcurrency(4),
 			best.WithTimeout(strategyTimeout),
@@ -58,7 +58,7 @@ func buildStrategy(ctx context.Context, c *Case, w *world, clock *fakes.VClock) 
 		)
 	case "majority":
 		return majority.New(ctx,
-			majority.WithLogLevel(zerolog.Disabled),
+			majority.WithLogLevel(levelOf(c.LogLevel)),
 			majority.WithClientMonitor(nullmetrics.New()),
 			majority.WithProcessConcurrency(4),
 			majority.WithTimeout(strategyTimeout),
